@@ -11,15 +11,17 @@ COQ_RUN = ("Searcher.Run", "run_c04")
 GEN_TARGETS = ["reverse_shifts"]
 N = {"quick": 20000, "thorough": 100000}
 RULE = (
-    "table universes (harness/universes/table.py): 2-9 integer classes, 15% empty; packs with 0-2 inferral, 0-2 "
-    "initial, 0-2 expansion sets, 1-2 verification strategies (20% with children), 0-2 symmetries; plain "
+    "table universes (harness/universes/table.py, table_c04.py): 2-10 integer classes, 15% empty; packs with 0-4 "
+    "inferral, 0-2 initial, 0-2 expansion sets, 1-2 verification strategies (25% with children), 0-2 symmetries; plain "
     "strategies with random flags (ignore_parent, inferrable, possibly_empty, workable), arity 1-3, repeated "
     "children, self-equivalences; factories yielding strategies, eager and lazy ready rules, rules with a "
-    "foreign parent, ready rules of strategies that do not apply. 60% of the universes satisfy the STRONG "
-    "contract (a possibly_empty=False strategy never has an empty child, symmetries preserve emptiness), the "
-    "others only random_universe's weaker one (an empty parent may have empty children under any strategy), "
-    "so the emptiness cache can be poisoned; ~1.5% of the start classes are empty (they get the empty rule and "
-    "are not expanded). Hand-made corner cases come from harness/corpus/C04. Each "
+    "foreign parent, ready rules of strategies that do not apply. About 83% of the universes satisfy the STRONG "
+    "contract = Searcher/Contracts.v contractsb (a possibly_empty=False strategy has no empty child on a non-empty "
+    "class, and none on an empty class either if its rules go through add_rule; symmetries preserve emptiness) - "
+    "about 10% of all universes are strong AND have a symmetry entry on an empty class, which the former statement of "
+    "the contracts excluded; the others only random_universe's weaker contract (an empty parent may have empty children "
+    "under any strategy) or none, so the emptiness cache can be poisoned; ~1.5% of the start classes are empty (they "
+    "get the empty rule and are not expanded). Hand-made corner cases come from harness/corpus/C04. Each "
     "universe is searched to queue exhaustion by the real CombinatorialSpecificationSearcher with RuleDB, "
     "RuleDBForgetStrategy, RuleDBForest(reverse=False/True), expand_verified on/off, classes stored "
     "compressed (to_bytes) or not, driven by _expand_classes_for or by do_level; the packets handed out by "
@@ -38,18 +40,26 @@ TRUSTED = [
     "run and replayed; the theorems quantify over all packet sequences and all answer sequences",
     "the logging wrappers of this plugin (queue proxy, instance-level wrappers of ruledb.add / is_verified, "
     "classdb.set_empty / is_empty, equivdb edge methods, the two rule stores, table_method.add_rule_key)",
-    "RecomputingDict.pop recomputes the strategy of the popped key; when that fails with the already recorded "
-    "limitation (a foreign-parent rule produced from a class outside the key) the wrapper deletes the key and goes on; "
-    "that recomputation also has side effects on the class database (classdb.is_empty on the children of candidate "
-    "rules fills the emptiness cache; get_label on a foreign parent the searcher never saw allocates a NEW label): "
-    "the wrapper counts them (evidence: forget_pop_*) and rolls them back so that RuleDB and RuleDBForgetStrategy "
-    "share one model",
+    "the wrapper around RecomputingDict.pop (counts and rolls back side effects of a recomputation on the class "
+    "database) is inert since fix e80f5df: RuleDBBase.add removes superseded one-way keys with `del`, which does "
+    "not recompute (evidence: 0 / 0 / 0 cases)",
 ]
 ASSUMPTIONS = [
     "strategies are pure functions of the class (the table); strategy objects compare equal iff they have the same table id",
     "factories list plain strategies only; shifts have one entry per child",
-    "C04_set_empty_consistent and the `kept => not empty` half of C04_stored_key need the strong table contract "
-    "(possibly_empty=False strategies have no empty child; symmetries preserve emptiness); the theorems state it",
+    "C04_set_empty_consistent, C04_empty_cache_truthful and the WHOLE of C04_stored_key / C04_stored_key_all_children "
+    "(both halves: dropped => truly empty, kept => not (possibly_empty and empty)) are proved under the two table "
+    "contracts of Searcher/Contracts.v (pe_contract T pack, sym_contract T) and for packets that carry strategies of "
+    "the pack (packets_in; the oracle checks it on every real run); contract-free is only C04_stored_key_partial "
+    "(labels of all children - or the first one for a symmetry call -, nothing dropped unless possibly_empty). The "
+    "contracts were restated: the former pe_contract also bound symmetry strategies on empty classes and contradicted "
+    "sym_contract there (C04_old_contracts_exclude_each_other). The documented contract alone (possibly_empty=False => "
+    "no empty child of a NON-EMPTY parent) is not enough for a truthful cache: the searcher presents empty classes to "
+    "non-symmetry strategies (foreign parents, first child of an inferral rule): C04_documented_contracts_insufficient_refuted",
+    "composition theorems C04_search_gives_add_hist / C04_adds_made_under_add_pre additionally assume sym_unary "
+    "(symmetry rules are unary) and twoway_faithful for the table's rule objects (decidable sufficient condition "
+    "items_plainb: no factory item names a verification strategy); extra_checks reports how many generated cases "
+    "satisfy all of them",
 ]
 TECHNIQUE = "Coq proof (invariant over the whole run of a fuel-indexed model, any table / packets / is_verified answers) + extracted-model/implementation trace correspondence"
 
@@ -77,25 +87,38 @@ def norm_flags(st):
     return [int(bool(x)) for x in f]
 
 
-def _only_symmetry(u, sid):
-    """a symmetry strategy that is used by _symmetry_expand only (its rules never reach add_rule)"""
+def queue_pack(u):
+    """the strategies the work queue may hand out in a packet (`pack` of Searcher/Contracts.v)"""
     p = u["pack"]
-    if u["strats"][sid]["kind"] != "Y":
-        return False
-    others = list(p["initial"]) + list(p["inferral"]) + [s for x in p["expansion"] for s in x] + list(p["ver"])
-    hidden = [it["sid"] for st in u["strats"] if st["kind"] == "F" for l in st["apply"].values() for it in l]
-    return sid not in others and sid not in hidden
+    return list(p["initial"]) + list(p["inferral"]) + [s for x in p["expansion"] for s in x]
+
+
+def applied_sids(u):
+    """strategies whose rules go through add_rule (`applied` of Searcher/Contracts.v): handed out by the queue,
+    verification strategies, and what the factories among them yield"""
+    handed = set(queue_pack(u)) | set(u["pack"]["ver"])
+    out = set(handed)
+    for s0 in handed:
+        st = u["strats"][s0]
+        if st["kind"] == "F":
+            for items in st["apply"].values():
+                out.update(it["sid"] for it in items)
+    return out
 
 
 def pe_contract(u):
-    """a possibly_empty=False strategy whose rules go through add_rule never has an empty child"""
+    """Searcher/Contracts.v pe_contract (decided there by pe_contractb; extra_checks compares the two on every
+    universe): a possibly_empty=False strategy has no empty child on a NON-EMPTY class (every strategy, symmetries
+    included), and none on an empty class either if its rules go through add_rule"""
     em = u["empty"]
+    app = applied_sids(u)
     for sid, st in enumerate(u["strats"]):
-        if st["kind"] == "F" or _only_symmetry(u, sid):
+        if st["kind"] == "F":
             continue
-        pe = norm_flags(st)[2]
-        for e in st["apply"].values():
-            if not pe and any(em[k] for k in e["children"]):
+        if norm_flags(st)[2]:
+            continue
+        for cs, e in st["apply"].items():
+            if (not em[int(cs)] or sid in app) and any(em[k] for k in e["children"]):
                 return False
     return True
 
@@ -112,6 +135,28 @@ def sym_contract(u):
     return True
 
 
+def sym_unary(u):
+    """Searcher/Contracts.v sym_unary: a rule a symmetry yields has exactly one child (hypothesis of the composition
+    theorems C04_search_gives_add_hist / C14_search_stored_rules_handed_back / C02_search_find_rule_total)"""
+    for sid in u["pack"]["sym"]:
+        for c in range(u["ncls"]):
+            for (s2, p) in yields(u, sid, c):
+                e = u["strats"][s2]["apply"].get(str(p))
+                if e is not None and len(e["children"]) != 1:
+                    return False
+    return True
+
+
+def items_plain(u):
+    """Searcher/Contracts.v items_plainb: no factory item names a verification strategy"""
+    for st in u["strats"]:
+        if st["kind"] == "F":
+            for items in st["apply"].values():
+                if any(u["strats"][it["sid"]]["kind"] == "V" for it in items):
+                    return False
+    return True
+
+
 def arity_contract(u):
     """rules of inferral strategies and of symmetries have at least one child (the code indexes [0])"""
     for sid in list(u["pack"]["sym"]) + list(u["pack"]["inferral"]):
@@ -124,18 +169,21 @@ def arity_contract(u):
 
 
 def strong_contract(u):
+    """the hypothesis of C04_set_empty_consistent / C04_empty_cache_truthful / C04_stored_key: the SAME predicate as
+    Searcher/Contracts.v contractsb T pack (pack = queue_pack(u)); extra_checks runs the extracted contractsb on
+    every generated universe and compares"""
     return pe_contract(u) and sym_contract(u)
 
 
 def make_strong(u):
     em = u["empty"]
+    app = applied_sids(u)
     for sid, st in enumerate(u["strats"]):
-        if st["kind"] == "F" or _only_symmetry(u, sid):
+        if st["kind"] == "F" or norm_flags(st)[2]:
             continue
-        pe = norm_flags(st)[2]
         for cs in list(st["apply"]):
             e = st["apply"][cs]
-            if not pe and any(em[k] for k in e["children"]):
+            if (not em[int(cs)] or sid in app) and any(em[k] for k in e["children"]):
                 del st["apply"][cs]
     return u
 
@@ -480,7 +528,7 @@ def impl(case):
            f.get("infexp", []), f["nr"], f["ne"], f["already"]]
     return {"out": out, "status": status, "exc": exc, "limit_hits": ctx.limit_hits,
             "pop_fills": ctx.pop_fills, "pop_allocs": ctx.pop_allocs,
-            "npackets": len(ctx.packets), "nanswers": len(ctx.answers)}
+            "npackets": len(ctx.packets), "nanswers": len(ctx.answers), "packets": ctx.packets}
 
 
 # ----------------------------------------------------------------- oracle
@@ -530,6 +578,11 @@ def oracle(case, res):
     symok = sym_contract(u)     # the only set_empty(.., True) the searcher issues is the one of _symmetry_expand
     if status != 0 and strong and arity_contract(u):
         return "the search died with %s on a universe honouring the contracts" % res.get("exc")
+    # hypothesis packets_in of the contract theorems: the queue hands out strategies of the pack only
+    qp = set(queue_pack(u))
+    for pk in res.get("packets", []):
+        if any(s_ not in qp for s_ in pk[1]):
+            return "the work queue handed out packet %r with a strategy outside initial/inferral/expansion" % (pk,)
     # labels: equal classes share a label, different classes never do
     if len(set(classes)) != len(classes):
         return "two labels carry the same class: %r" % (classes,)
@@ -671,6 +724,15 @@ def oracle(case, res):
     return None
 
 
+def _sym_on_empty(u):
+    em = u["empty"]
+    for sid in u["pack"]["sym"]:
+        for c in range(u["ncls"]):
+            if em[c] and any(u["strats"][s2]["apply"].get(str(p)) for (s2, p) in yields(u, sid, c)):
+                return True
+    return False
+
+
 def features(case, res):
     """which mechanisms of the property the run exercised (from the table and the logged trace)"""
     out = res.get("out")
@@ -803,10 +865,46 @@ def shrink(case):
             yield c
 
 
+def _contract_bits(u, packets):
+    qp = set(queue_pack(u))
+    return [int(pe_contract(u)), int(sym_contract(u)), int(sym_unary(u)),
+            int(all(s_ in qp for pk in packets for s_ in pk[1])), int(items_plain(u))]
+
+
+def _compare_contracts(ctx):
+    """the Python predicates above against the extracted decision procedures of Searcher/Contracts.v
+    (run_c04, mode 100) on EVERY retained universe"""
+    from harness import core
+
+    binary = os.path.join(core.WORK, ID, "ocaml", "model")
+    if not os.path.exists(binary):
+        return ("contract predicates: harness vs Coq (extracted contractsb)", False, "no extracted model")
+    encs, want = [], []
+    for case, (r, _, _) in zip(ctx.cases, ctx.impl_res):
+        u = case["u"]
+        packets = r.get("packets", []) if isinstance(r, dict) else []
+        empty, strats, ver, sym = _enc_universe(u)
+        encs.append([[100, 0, 0, 0, 0], empty, strats, ver, sym, packets, [], queue_pack(u)])
+        want.append(_contract_bits(u, packets))
+    got = core.run_model(binary, encs)
+    bad = [(i, w, g) for i, (w, g) in enumerate(zip(want, got)) if w != g]
+    detail = "%d universes compared (pe, sym, sym_unary, packets_in, items_plain), %d disagree" % (len(encs), len(bad))
+    if bad:
+        i, w, g = bad[0]
+        detail += "; first: python %r, coq %r, failing input %s" % (w, g, json.dumps(ctx.cases[i])[:400])
+    return ("contract predicates: harness strong_contract == Coq contractsb on every universe", not bad, detail)
+
+
 def extra_checks(ctx):
     """distribution facts that make the run meaningful"""
-    res = []
+    res = [_compare_contracts(ctx)]
     tot = len(ctx.cases)
+    nsymempty = sum(1 for c in ctx.cases if strong_contract(c["u"]) and _sym_on_empty(c["u"]))
+    res.append(("strong universes with a symmetry entry on an EMPTY class (excluded by the former contracts)",
+                nsymempty > 0 or tot < 200, "%d of %d" % (nsymempty, tot)))
+    ncomp = sum(1 for c in ctx.cases if strong_contract(c["u"]) and sym_unary(c["u"]) and items_plain(c["u"]) and c["db"] in (0, 1))
+    res.append(("pruning-database cases satisfying every hypothesis of C04_search_gives_add_hist", ncomp > 0 or tot < 200,
+                "%d of %d" % (ncomp, tot)))
     nstrong = sum(1 for c in ctx.cases if strong_contract(c["u"]))
     res.append(("share of universes honouring the strong contract", nstrong > 0 or tot < 20, "%d of %d" % (nstrong, tot)))
     ndied = sum(1 for r, _, _ in ctx.impl_res if isinstance(r.get("out"), list) and r["out"][0] != 0)
@@ -823,35 +921,45 @@ def extra_checks(ctx):
 
 LEVEL_TEXT = (
     "Theorems C04_* (coq/theories/Props/C04.v) are invariants of the whole run of the searcher model "
-    "(Searcher/Model.v), proved for every strategy table, start class, packet sequence the queue may hand out, "
-    "sequence of ruledb.is_verified answers, fuel, driver (_expand_classes_for / do_level), expand_verified "
-    "setting and database mode (pruning databases, RuleDBForest with and without reverse rules): "
-    "C04_recorded_from_table (every ruledb.add(start, ends, rule): the rule is yielded by a strategy of the table "
-    "applied to a class the database knows, the table has an entry for (strategy, parent), start is the label of "
-    "the rule's PARENT, ends are the labels of the table's children in order - all, or the first one for the "
-    "calls of _symmetry_expand; the only other rule is the empty rule - for an empty start class under every "
-    "database, or by RuleDBForest for an empty child - and only under the label of a truly empty class), "
+    "(Searcher/Model.v), proved for every strategy table, start class, packet sequence, sequence of "
+    "ruledb.is_verified answers, fuel, driver (_expand_classes_for / do_level), expand_verified setting and database "
+    "mode (pruning databases, RuleDBForest with and without reverse rules). Contract-free: "
+    "C04_recorded_from_table (every ruledb.add(start, ends, rule): the rule is yielded by SOME strategy of the table "
+    "applied to a class the database knows - membership in the pack is decided by the oracle only -, the table has an "
+    "entry for (strategy, parent), start is the label of the rule's PARENT, ends are the labels of the table's "
+    "children in order - all, or the first one for a rule a symmetry yields; the only other rule is the empty rule, "
+    "always under the label of a truly empty class - the theorem does not say under which database or when), "
     "C04_no_rule_when_not_applicable (no event for a strategy without table entry, also lazily through "
     "rule.children; the self-equivalence is never recorded), C04_labels / C04_labels_stable (different classes "
-    "never share a label, a label never changes later in the run), C04_stored_key_partial (the key RuleDBBase "
-    "stores is (label of the parent, sorted(selection of the labels handed over)); nothing is dropped unless the "
-    "strategy is possibly_empty), and - under the stated table contracts (possibly_empty=False strategies have "
-    "no empty child; symmetries preserve emptiness) - C04_set_empty_consistent, C04_empty_cache_truthful and "
-    "C04_stored_key (a child is dropped iff the rule is possibly_empty and the class is truly empty). "
+    "never share a label, a label never changes over later packets), C04_stored_key_partial (the key RuleDBBase "
+    "stores is (label of the parent, sorted(selection of the labels of ALL children - of the first child for a "
+    "symmetry call))); nothing is dropped unless the strategy is possibly_empty). Under the two table contracts of "
+    "Searcher/Contracts.v (restated so that they are jointly satisfiable when a symmetry has an entry on an empty "
+    "class: C04_old_contracts_exclude_each_other shows the former pair was not; decided by contractsb = the "
+    "harness's strong_contract, compared on every generated universe) and for packets of pack strategies: "
+    "C04_set_empty_consistent, C04_empty_cache_truthful, C04_stored_key and C04_stored_key_all_children (the "
+    "children missing from a stored key are exactly the truly empty children of possibly_empty rules). Composition "
+    "with C14 / C02: C04_search_gives_add_hist (the rule stores of every run on a pruning database are the key sets "
+    "of a RuleDB reached by an add_hist history whose steps are, one by one, the trace's ruledb.add events, each "
+    "made under add_pre in the class database of that moment; truthful cache) and C04_adds_made_under_add_pre. "
     "The model is tied to comb_spec_searcher.py / rule_db/base.py / rule_db/forest.py by exact equality of the "
     "whole event trace (ruledb.add calls, searcher-issued set_empty, queue calls, equivalence edges, store and pop "
     "operations on the two rule stores, forest keys incl. reverse keys with the REGENERATED reverse_shifts) and of "
     "the final class database, on real searches of table universes run to queue exhaustion; an independent Python "
-    "oracle re-derives every property statement from the table."
+    "oracle decides from the table: parent label, pack membership, child labels, dropped/kept children, store "
+    "choice, forest keys, empty rules, set_empty truthfulness (strong universes only) - not label stability."
 )
 LEVEL_NOTE = (
     "Trusted: Coq kernel, extraction + OCaml driver, the logging wrappers. The work queue and is_verified are "
-    "replayed inputs, not modelled here (C16/C06/C03 cover them); theorems quantify over all of them. Not proved: "
+    "replayed inputs, not modelled here (C16/C06/C03 cover them); theorems quantify over all of them (the contract "
+    "theorems over packets of pack strategies). Not proved: "
     "that every empty child of a possibly_empty rule receives the forest's empty rule exactly once per label, "
-    "completeness (every rule the table yields for an expanded packet is recorded), and any characterisation of "
-    "forest keys / equivalence edges - these are covered by the trace correspondence and the oracle only. "
+    "completeness (every rule the table yields for an expanded packet is recorded), any characterisation of "
+    "forest keys / equivalence edges, that the yielding strategy belongs to the pack, and 'a dropped child is truly "
+    "empty' under sym_contract alone - these are covered by the trace correspondence and the oracle only. "
     "C04_stored_key_partial is the contract-free part of C04_stored_key. A run that exhausts the model's fuel or "
     "dies with an exception is covered by the theorems up to that point; fuel exhaustion was never observed "
     "(fuel = 2*classes+12). Code quirk modelled as is: RuleDBBase.add's `if ends == [start]: return` compares a "
-    "tuple with a list and never fires, so a rule p -> (p, empty child) is stored as the equivalence (p, (p,))."
+    "tuple with a list and never fires, so a rule p -> (p, empty child) is stored as the equivalence (p, (p,)). "
+    "Real packs (word universes) are never run under C04."
 )
